@@ -44,15 +44,18 @@ def gen_case(rnd, tier: str, i: Any) -> Dict[str, Any]:
         pool = pool[:2] + rnd.sample(META_OPS, rnd.randint(2, 4))
     first_step = gen_sim.pick_first_step(rnd)
     files = {}
+    autograd = n_steps >= 1 and rnd.random() < 0.3        # an autograd thread whose operators are re-parented beneath the main thread's annotations
     for r in range(n_ranks):
-        p = gen_sim.random_params(rnd, tier, rank=r, n_steps=n_steps, first_step=first_step, autograd=False, avoid_k1=True, repeat_names=True,
-                                  max_depth=rnd.choice([3, 5]), ops_per_step=rnd.choice([(3, 8), (6, 12), (6, 12)]), n_threads=rnd.choice([1, 1, 2]),
+        p = gen_sim.random_params(rnd, tier, rank=r, n_steps=n_steps, first_step=first_step, autograd=autograd, avoid_k1=True, repeat_names=True,
+                                  max_depth=rnd.choice([3, 5]), ops_per_step=rnd.choice([(3, 8), (6, 12), (6, 12)]), n_threads=2 if autograd else rnd.choice([1, 1, 2]),
                                   p_sync=rnd.choice([0.0, 0.1]), p_event=0.0, p_leaf_children=rnd.choice([(0, 3), (1, 4), (2, 5)]), pre_ops=rnd.choice([1, 3]))
         p["ops_pool"] = pool
         tr = gen_sim.gen_trace(rnd, **p)
         gen_sim.drop_events(rnd, tr, p_launch=rnd.choice([0, 0, 0.1]), p_kernel=rnd.choice([0, 0, 0.1]))
         files[f"rank{r}.json"] = tr
     names = pool * 3 + ["cudaLaunchKernel", "aten::nonexistent", "ProfilerStep", "aten::"] + (rnd.sample(META_QUERIES, 4) if meta else [])
+    if autograd:
+        names += ["autograd::engine::evaluate_function", "## backward ##", "ProfilerStep", "Backward0", f"ProfilerStep#{first_step}"] * 2
     qs = [{"op": rnd.choice(names), "min_len": rnd.choice([1, 1, 1, 2, 2, 3, 5]), "top_k": rnd.choice([1, 5]), "rank": rnd.randrange(n_ranks)}
           for _ in range(rnd.randint(2, 5 if n_ranks > 1 else 4))]
     return {"files": files, "queries": qs}
@@ -62,8 +65,21 @@ def expected(kept: List[raw.Ev], link: Dict[int, int], q: Dict[str, Any]):
     """-> (Counter pattern -> [count, gpu, cpu], info) or None when an instance has tied device start times."""
     byid = {e.id: e for e in kept}
     par: Dict[int, int] = {}
-    for key, th in wf.host_threads(kept).items():
+    threads = wf.host_threads(kept)
+    for key, th in threads.items():
         par.update(wf.tree_parents(th))
+    # enhanced call graph (C13): with exactly one thread holding profiler steps and exactly one autograd thread, the autograd
+    # thread's top-level operators lying within a backward annotation (else a profiler step) of the main thread hang beneath it
+    main = [k for k, th in threads.items() if any(isinstance(e.name, str) and e.name.startswith("ProfilerStep#") for e in th)]
+    bwd = [k for k, th in threads.items() if k not in main and any(isinstance(e.name, str) and "autograd::" in e.name for e in th)]
+    if len(main) == 1 and len(bwd) == 1:
+        mth, bth = threads[main[0]], threads[bwd[0]]
+        anns = [e for e in mth if e.name.startswith("## backward ##")] or [e for e in mth if e.name.startswith("ProfilerStep#")]
+        for e in bth:
+            if par[e.id] == -1:
+                inside = [a for a in anns if a.ts <= e.ts and e.end <= a.end]
+                if inside:
+                    par[e.id] = inside[0].id
     kids = collections.defaultdict(list)
     for c, p in par.items():
         kids[p].append(c)
